@@ -138,6 +138,45 @@ type IfaceCfg struct {
 	I interface{}
 	Q string
 	J interface{}
+	M map[string]interface{} // replaced as a whole; its values are structs held BY VALUE with unexported state
+	L []interface{}
+}
+
+type private struct {
+	n int
+	s string
+}
+
+// boxed draws a value for an interface position inside a collection
+func boxed(r *coqfmt.Rng) interface{} {
+	switch r.Intn(5) {
+	case 0:
+		return time.Unix(int64(1000+r.Intn(100000)), int64(r.Intn(1000))).UTC()
+	case 1:
+		return private{n: 1 + r.Intn(9), s: "p"}
+	case 2:
+		return IfA{A: r.Intn(3), B: "b"}
+	case 3:
+		return r.Intn(7)
+	default:
+		return []string{"x"}
+	}
+}
+
+func boxedMap(r *coqfmt.Rng) map[string]interface{} {
+	m := map[string]interface{}{}
+	for i, n := 0, r.Intn(3); i < n; i++ {
+		m[string(rune('a'+r.Intn(4)))] = boxed(r)
+	}
+	return m
+}
+
+func boxedList(r *coqfmt.Rng) []interface{} {
+	l := []interface{}{}
+	for i, n := 0, r.Intn(3); i < n; i++ {
+		l = append(l, boxed(r))
+	}
+	return l
 }
 
 func runIface(in input) driver.Result {
@@ -146,6 +185,12 @@ func runIface(in input) driver.Result {
 	defaults := reflect.New(T)
 	defaults.Elem().Field(0).SetInt(int64(r.Intn(5)))
 	defaults.Elem().Field(2).SetString([]string{"", "d"}[r.Intn(2)])
+	if r.Chance(1, 2) {
+		defaults.Elem().Field(4).Set(reflect.ValueOf(boxedMap(r)))
+	}
+	if r.Chance(1, 2) {
+		defaults.Elem().Field(5).Set(reflect.ValueOf(boxedList(r)))
+	}
 	exp := defaults.Elem().Interface().(IfaceCfg)
 	PT := ptrify.Pointerify(T, defaults.Elem())
 	nl := 1 + r.Intn(4)
@@ -163,9 +208,25 @@ func runIface(in input) driver.Result {
 			l.Field(2).Set(reflect.ValueOf(&v))
 			exp.Q = v
 		}
+		if r.Chance(1, 3) {
+			m := boxedMap(r)
+			l.Field(4).Set(reflect.ValueOf(m))
+			exp.M = m
+			desc = append(desc, fmt.Sprintf("L%d.M=%#v", i, m))
+		}
+		if r.Chance(1, 3) {
+			v := boxedList(r)
+			l.Field(5).Set(reflect.ValueOf(v))
+			exp.L = v
+			desc = append(desc, fmt.Sprintf("L%d.L=%#v", i, v))
+		}
 		for _, fi := range []int{1, 3} {
 			var val interface{}
-			switch r.Intn(9) {
+			switch r.Intn(10) {
+			case 9:
+				l.Field(fi).Set(reflect.ValueOf([]string(nil))) // a typed nil slice: sets nothing
+				desc = append(desc, fmt.Sprintf("L%d.%d=nil-slice", i, fi))
+				continue
 			case 0, 1, 2:
 			case 3, 4:
 				val = IfA{A: r.Intn(3), B: []string{"", "x"}[r.Intn(2)]}
